@@ -1,6 +1,6 @@
 (* C18 — property theorems only.  Each is closed by [exact]; see C18/Proofs*.v. *)
-From Coq Require Import List ZArith Bool Arith.
-From VV Require Import Lib.Base C17.LibDict C17.Model C18.Model C18.Proofs C18.ProofsLabels.
+From Coq Require Import List ZArith Bool Arith Permutation Sorted.
+From VV Require Import Lib.Base C17.LibDict C17.Model C18.Model C18.Proofs C18.ProofsLabels C18.ProofsOrder.
 Import ListNotations.
 
 (* every observed task is listed once, under the status it ended with, in
@@ -74,3 +74,24 @@ Theorem C18_summary_successful_iff_all_succeeded :
    verdict_bl rows = forallb (fun r : row V => Nat.eqb (r_ko r) 0) rows).
 Proof. exact @summary_successful_iff_all_succeeded. Qed.
 Print Assumptions C18_summary_successful_iff_all_succeeded.
+
+(* round 4: the rows carry pairwise distinct label tuples (every combination
+   of values gets exactly one row), and the final sort is a permutation of
+   them in increasing lexicographic order of the tuples: with distinct tuples
+   this is THE order in which the code lists them *)
+Theorem C18_by_labels_rows_distinct_and_sorted :
+  forall (K V Nm F : Type) (keqb : K -> K -> bool) (veqb vleb : V -> V -> bool),
+  (forall a b : K, keqb a b = true <-> a = b) ->
+  (forall a b : V, veqb a b = true <-> a = b) ->
+  (forall a b : V, vleb a b = true \/ vleb b a = true) ->
+  forall (k_name k_result : K) (v_succ v_fail : V) (vname : Nm -> V)
+         (tasks : list (Nm * option (list (item K V Nm F)))) (by_labels : list K)
+         (rows : list (row V)) (n : nat),
+  tasks_dicts tasks ->
+  evaluate_by_labels keqb veqb k_name k_result v_succ v_fail vname tasks by_labels = Ok (rows, n) ->
+  NoDup (map (@r_labels V) rows) /\
+  Permutation (sort_rows vleb veqb rows) rows /\
+  Sorted (row_le vleb veqb) (sort_rows vleb veqb rows) /\
+  NoDup (map (@r_labels V) (sort_rows vleb veqb rows)).
+Proof. exact @by_labels_rows_distinct_and_sorted. Qed.
+Print Assumptions C18_by_labels_rows_distinct_and_sorted.
